@@ -333,8 +333,10 @@ inline bool Future<void>::Private::LockFreeQueue<T>::pop(T &result)
 
 void Future<void>::Private::FastSignal::set()
 {
-  if (Atomic::testAndSet(_state) == 0)
-    _signal.set();
+  // The signal has to be set even when the state was already 1: a concurrent reset() may have cleared the state, lost the
+  // race against this set() and be about to reset the signal, which would leave the state set and the signal reset.
+  Atomic::testAndSet(_state);
+  _signal.set();
 }
 
 void Future<void>::Private::FastSignal::reset()
